@@ -8,8 +8,8 @@ EXPLANATION = ("R-PAIR scope() joins after its body and Drop for Scope joins on 
                "left, every scoped spawn defers a join of exactly the coroutine it spawned; R-EXIT Join::wait returns only after "
                "observing state==false; the scoped join and the cqueue drain run inside a cancel-disabled region (they are not "
                "cancellation points) and Cqueue::drop leaves only through Finished; R-TYPE lifetime witnesses")
-EXPLANATION_2 = ('every join of a scoped child in may::scoped is cancel-masked, JoinState::Joined only set by JoinState::join which takes its own state, explicit join waits then takes, the child stores its result; cancel-state encoding imported; the join of a select coroutine in Cqueue::check_panic is cancel-masked (F26)')
-NOT_DECIDED = "that children actually terminate (liveness); thread::panicking() being per-thread while coroutines migrate"
+EXPLANATION_2 = ('every join of a scoped child in may::scoped is cancel-masked, JoinState::Joined only set by JoinState::join which takes its own state, explicit join waits then takes, the child stores its result; cancel-state encoding imported; the join of a select coroutine in Cqueue::check_panic is cancel-masked (F26); the scope functions run the user closure under catch_unwind so that their blocking destructor is never a landing pad (F36, F37)')
+NOT_DECIDED = "that children actually terminate (liveness); thread::panicking() being per-thread while coroutines migrate, except where it is made harmless structurally (the scope functions never block in a landing pad)"
 CONFIGS_QUICK = ["default"]
 NEEDS_TARGET = True
 
